@@ -268,6 +268,7 @@ class C38(Check):
                 "C38_set_other", "C38_unset_other", "C38_lookup_other", "C38_setenv_other",
                 "C38_set_then_lookup", "C38_env_by_any_name", "C38_file_by_any_name", "C38_reg_syn_names",
                 "C38_read_only", "C38_out_of_range", "C38_find_unknown", "C38_cmdline_join",
+                "C38_setenv_exact_name", "C38_add_to_env_other", "C38_cmdline_other",
                 "C38_file_history_uncached", "C38_file_history_cached", "C38_file_history_no_synonyms",
                 "C38_file_list_precedence")
     comp = "mca"
@@ -298,7 +299,8 @@ class C38(Check):
                  "against the extracted model + oracle replaying the documented resolution")
     rule = ("each case: 0-3 parameter files, 1-4 parameters (int/size_t/string, 15% read-only) with 0-2 synonyms, every "
             "source (override, environment per name, file entry per name and file, default) independently present, "
-            "repeated --mca/--gmca options, repeated lookups, re-registration, late synonyms, set/unset/unenv, occasional "
+            "repeated --mca/--gmca options, parameter / synonym / option names in prefix relation (t_a, t_a_b, t_ab; on a "
+            "command line in both orders), repeated lookups, re-registration, late synonyms, set/unset/unenv, occasional "
             "file re-read, unknown names and out-of-range indices. Non-trivial = some lookup has at least two sources "
             "present; distinct = distinct case text")
     trusted = ("harness/h_mca.c replays the argument loop of parsec_init (parse, process_args, copy of the context "
@@ -346,6 +348,11 @@ class C38(Check):
                 tn, pn = r.pick(self.TN), r.pick(self.PN)
                 if r.below(12) == 0:
                     tn, pn = None, (tn + "_" + pn if r.below(2) else pn)
+                if params and r.below(3) == 0:
+                    # a name in prefix relation with one that exists (t_a / t_a_b / t_ab): names are exact keys
+                    base = r.pick(params)
+                    tn = base["tn"]
+                    pn = base["pn"] + r.pick(["_b", "b", "_x_y", "2"]) if (len(base["pn"]) < 2 or r.below(3)) else base["pn"][:-1]
                 if full_name(tn, pn) not in used:
                     break
             else:
@@ -356,6 +363,8 @@ class C38(Check):
             for _s in range(r.pick([0, 0, 1, 1, 2])):
                 for _try in range(20):
                     stn, spn = r.pick(self.SYN_TN), r.pick(self.PN + ["x", "y"])
+                    if r.below(4) == 0:         # a synonym that extends / is a prefix of the real name
+                        stn, spn = tn, r.pick([(pn or "") + "_old", (pn or "") + "o", (pn or "q")[:-1] or "q"])
                     if share and r.below(2) and len(used) > 1:
                         name = r.pick(sorted(used - set([FILES_PARAM])))
                         stn, spn = None, name
@@ -484,16 +493,32 @@ class C38(Check):
                     fs[0].append((full_name(q["tn"], q["pn"]), self.rnd_text(r, q["ty"], file_value=True)))
                 segs.append("recache" + fmt_files(fs))
             else:
-                # command line: repeated names, both kinds
+                # command line: repeated names, both kinds; names in prefix relation in both orders
+                # (every pair goes through add_to_env -> parsec_setenv, which must match whole names)
                 pool = names_all + ["zz_other"]
+                fam = []
+                if r.below(3) != 0:
+                    b = r.pick(names_all + ["zz"])
+                    fam = [b] + r.shuffle([b + "_q", b + "q", b + "_q_r"] + ([b[:-1]] if len(b) > 1 else [])
+                                          + [x for x in names_all if x != b and (x.startswith(b) or b.startswith(x))])[:r.pick([1, 2, 3])]
+                    fam = r.pick([sorted(fam, key=len, reverse=True), sorted(fam, key=len), r.shuffle(fam)])
                 args = []
-                for _a in range(r.pick([1, 2, 2, 3, 4, 5])):
-                    n = r.pick(pool) if (not args or r.below(2)) else r.pick(args)[1]
+                for _a in range(len(fam) + r.pick([0, 1, 1, 2, 3])):
+                    if _a < len(fam):
+                        n = fam[_a]
+                    else:
+                        n = r.pick(pool + fam) if (not args or r.below(2)) else r.pick(args)[1]
                     q = [x for x in params if n in [full_name(x["tn"], x["pn"])] + [full_name(a, b) for a, b in x["syns"]]]
                     v = self.rnd_text(r, q[0]["ty"]) if q and q[0]["ty"] == "s" else (
                         str(self.rnd_num(r, q[0]["ty"], "text")) if q and len([a for a in args if a[1] == n]) == 0 else self.rnd_str(r, allow_empty=False))
                     args.append((r.pick("mmmg"), n, v))
+                if fam and r.below(3) == 0:
+                    args = r.shuffle(args)
                 segs.append("cmd " + " ".join("%s %s =%s" % a for a in args))
+                for x in params:        # everybody named on the command line, or related to a name on it, is looked up
+                    xn = [full_name(x["tn"], x["pn"])] + [full_name(a, b) for a, b in x["syns"]]
+                    if x is not p and any(a[1].startswith(m) or m.startswith(a[1]) for a in args for m in xn):
+                        segs.append(look(x))
             segs.append(look(p))
         for p in r.shuffle(params):
             segs.append(look(p))
@@ -527,6 +552,16 @@ class C38(Check):
             # the join law
             "files | cmd m a =x m a =y | cmd m a =x g a =g m b =1 g b =2 m a =y g c =1 g c =2 g c =3",
             "files | reg s =t =a 0 0 =d 1 | cmd m t_a =x m t_a =y | look 1 s | cmd g t_a =z | look 1 s",
+            # names in prefix relation are different variables: command line (longer name first, shorter
+            # name first, both option kinds, repeated), environment, files
+            "files | cmd m foo_bar =1 m foo =2 | cmd m fo =3 m foo =4 m foo_bar =5 m foo =6 | cmd g foo_bar =7 g foo =8 m f =9",
+            "files | reg i =t =a_b 0 0 3 1 | reg i =t =a 0 0 4 1 | reg i =t =ab 0 0 5 1 | cmd m t_a_b =1 m t_a =2 | look 1 i | look 2 i | "
+            "look 3 i | cmd m t_a =6 m t_ab =7 m t_a_b =8 | look 1 i | look 2 i | look 3 i",
+            "files | reg s =t =a 0 0 =d 1 | reg s =t =a_b 0 0 =e 1 | syn 1 =t =a_old 0 | cmd m t_a_old =o m t_a_b =x m t =z m t_a_b =y | "
+            "look 1 s | look 2 s | cmd m t_a_b =p m t_a =q | look 1 s | look 2 s",
+            "files | reg i =t =a_b 0 0 3 1 | reg i =t =a 0 0 4 1 | cmd m t_a_b =1 m zz =0 m t_a =2 m t_a_b =3 | look 1 i | look 2 i",
+            "files [ t_a =1 t_a_b =2 t_ab =3 ] | env t_a_b =7 | reg i =t =a 0 0 0 1 | reg i =t =a_b 0 0 0 1 | reg i =t =ab 0 0 0 1 | "
+            "unenv t_a_b | look 1 i | look 2 i | look 3 i | env t_a =9 | look 2 i | look 3 i | unenv t_a | look 1 i",
             # read-only
             "files [ t_r =4 ] | env t_r =5 | reg i =t =r 1 0 9 1 | set 1 i 3 | look 1 i | unset 1 | look 1 i",
             # size_t wrap, int wrap
